@@ -27,6 +27,26 @@ CHECKS = {
             'All 16-bit keys are tried on the field table and on the trait set of a live instance of every message, header, trailer and nested group of both schemas; names and near misses '
             'on the message/reverse tables; thousands of random op histories on both presorted_set templates.',
             'Independent schema model; ASan for the memmove/memcpy paths.', '3 C12'),
+    'C26': ('persist_model', 'exploration', 'model-based history checking: every API return of MemoryPersister/FilePersister vs a std::map + control-pair model, under ASan+UBSan',
+            'Thousands of random histories (up to 120 operations, small key spaces so that collisions, refusals and empty ranges are frequent, reopen for the file store) '
+            'are compared call by call with the model derived from the property text; range retrieval is observed through the retransmission callback.',
+            'Payloads up to the 8192-byte message limit; single-threaded use of a persister (as the session does under its lock).', '3 C26'),
+    'C27': ('persist_crash', 'fault_enumeration', 'crash-point enumeration: child process killed after every k-th completed write/lseek (symbol interposition), store reopened and checked by an oracle',
+            'For each generated script every crash point is enumerated (not sampled); after each crash the store is reopened in a fresh process, checked against the set of '
+            'completed / in-flight operations, used for further stores including the in-flight number, and reopened again.',
+            'Process-crash model (completed system calls persist); plain build for the fork-heavy enumeration, the same code runs under ASan in C26.', '3 C27'),
+    'C28': ('logger_stress', 'exploration', 'offline checker over recorded submit events (logical clock) and the log file read when stop() returned; real producer threads; ASan (thorough adds TSan)',
+            'Hundreds of runs with 1..8 producers, random level masks and stop() either after the producers or racing them; the checker decides exactly-once, per-producer order, '
+            'consecutive sequence numbers, level filtering, the submit result and that stop() returned only after all accepted lines were in the file.',
+            'Logical clock = one atomic counter; "submitted before stop" means send() returned before stop() was called.', '3 C28'),
+    'C29': ('rotate_fs', 'exploration', 'directory snapshot oracle before/after rotation for counts 0..5000 x logger/persister modes x pre-existing generation sets, under ASan',
+            'Every rotation entry point (FileLogger ctor, rotate(force) on append logs, second rotation, FilePersister purge with index files) is run on directories with generated '
+            'generation sets and bystander files; contents identify the original file so shifts are checked exactly; counts above the 1024 cap are included.',
+            'Where name.(k-1) did not exist the statement is silent about name.k.', '3 C29'),
+    'C32': ('xml_tree', 'exploration', 'generator tree as reference vs parsed XmlElement tree (tags, decoded attributes, text, child order, path lookups); mutated/random bytes under ASan+UBSan',
+            'Thousands of generated documents per run exercise every reference spelling, quoting and whitespace variation the generator knows, including reference-looking literal '
+            'text; tens of thousands of corrupted documents must produce a tree or XMLError.',
+            'Extensions (${env}, !{shell}, xi:include) disabled/not generated.', '3 C32'),
 }
 
 NOT_YET = 'check not built yet in this round (planned, see DESIGN.md section 3)'
@@ -65,6 +85,11 @@ def main():
         'engines': [
             {'name': 'prim_exec', 'path': 'harness/prim_exec.cpp', 'serves_properties': ['C07', 'C08', 'C09', 'C10', 'C12', 'C24'],
              'kind_free_text': 'micro-monitors: real primitive + oracle from the property text, ASan/UBSan build'},
+            {'name': 'persist_model', 'path': 'harness/persist_model.cpp', 'serves_properties': ['C26'], 'kind_free_text': 'random API histories vs map model'},
+            {'name': 'persist_crash', 'path': 'harness/persist_crash.cpp', 'serves_properties': ['C27'], 'kind_free_text': 'fork + write/lseek countdown crash injection, reopen oracle'},
+            {'name': 'logger_stress', 'path': 'harness/logger_stress.cpp', 'serves_properties': ['C28'], 'kind_free_text': 'producer threads + offline exactly-once/order checker'},
+            {'name': 'rotate_fs', 'path': 'harness/rotate_fs.cpp', 'serves_properties': ['C29'], 'kind_free_text': 'rotation vs directory snapshots'},
+            {'name': 'xml_tree', 'path': 'harness/xml_tree.cpp', 'serves_properties': ['C32'], 'kind_free_text': 'tree generator/serialiser, structural comparison, byte mutation'},
         ],
         'checks': checks,
         'notes': 'All checks: python3 check.py <id> --tier quick|thorough; VERIF_SEED selects the PRNG seed. Exit 0 held, 1 VIOLATION, 2 inconclusive. '
